@@ -45,7 +45,7 @@ theorem specStep_keeps_leaving (a : ASt) (f : Nat → Bool) (op : Op) (k d e : N
     · rename_i hk; subst hk; simp [renSt, hin, KSt.inSet]
     · exact hin
   | restartRoutine _ => exact hin
-  | resetAll => simp [specStep, ASt.inSet, renSt, hin, KSt.inSet]
+  | resetAll => simp [specStep, ASt.inSet, renSt, h, KSt.inSet]
   | restartAll => exact hin
   | setContext c r => exact hin
   | addKeyRef k' =>
@@ -118,24 +118,23 @@ theorem rcOk_specStep (a : ASt) (f : Nat → Bool) (op : Op) (h : RcOk a) (hop :
     simp only [specStep, renew, upd]
     split
     · rename_i hkk; subst hkk
-      exact ⟨_, by simp [renSt, inSet_of_present a k d hd]⟩
+      exact ⟨a.nctor k + 1, by simp [renSt, inSet_of_present a k d hd]⟩
     · exact ⟨d, hd⟩
   | resetAll =>
     intro k hk
     obtain ⟨d, hd⟩ := h k hk
-    exact ⟨_, by simp [specStep, renSt, inSet_of_present a k d hd]⟩
+    exact ⟨a.nctor k + 1, by simp [specStep, renSt, inSet_of_present a k d hd]⟩
   | addKeyRef k' =>
     intro k hk
     simp only [specStep, request, upd]
     split
     · exact reqSt_present a k'
     · rename_i hne
-      have : liveCount { a with live := a.live ++ [some k'] } k = liveCount a k := by
-        rw [liveCount_append]; simp [fun e : k' = k => hne e.symm]
-      have hk' : 0 < liveCount a k := by
-        have := hk; simp only [specStep, request] at this
-        rwa [show liveCount _ k = liveCount { a with live := a.live ++ [some k'] } k from rfl, ‹liveCount _ k = liveCount a k›] at this
-      exact h k hk'
+      have hne' : ¬ k' = k := fun e => hne e.symm
+      have e : liveCount (specStep a f (.addKeyRef k')) k = liveCount { a with live := a.live ++ [some k'] } k := rfl
+      rw [e, liveCount_append] at hk
+      simp only [hne', if_false, Nat.add_zero] at hk
+      exact h k hk
   | release r =>
     simp only [specStep, specRelease]
     split
@@ -148,8 +147,7 @@ theorem rcOk_specStep (a : ASt) (f : Nat → Bool) (op : Op) (h : RcOk a) (hop :
         intro k
         simp only [liveCount]
         rw [List.countP_set hlt]
-        simp
-        omega
+        simp <;> omega
       split
       · rename_i hz
         intro k hk
@@ -179,7 +177,9 @@ theorem rcOk_specStep (a : ASt) (f : Nat → Bool) (op : Op) (h : RcOk a) (hop :
         funext x
         simp only [Function.comp]
         by_cases hx : x = some k'
-        · subst hx; simp [fun e : k' = k => hkk e.symm]
+        · subst hx
+          have hkk' : ¬ k' = k := fun e => hkk e.symm
+          simp [hkk']
         · simp [hx]
     have hk1 : 0 < liveCount { a with live := a.live.map fun x => if x == some k' then none else x } k := hk
     rw [hc] at hk1
@@ -212,6 +212,7 @@ theorem release_twice (a : ASt) (f f' : Nat → Bool) (r : Nat) :
       rcases Nat.lt_or_ge r a.live.length with h' | h'
       · exact h'
       · simp [List.getElem?_eq_none h'] at hk'
+    simp only []
     split <;> simp [dismiss, hlt]
   · rename_i hno
     intro h; exact hno k h
